@@ -239,7 +239,8 @@ func c17(c *Ctx) {
 					out, _ = adapter.SafeCall(u, op.Name, serial, a, aux)
 				}
 			}
-			c.Res.DistinctKey("call", op.Name, mutName)
+			rm0, _ := refRoute(cfg, serial)
+			c.Res.DistinctKey("call", op.Name, mutName, rm0, nd)
 			if before != after {
 				c.Res.Violate("C17:argument-modified:"+op.Name, fmt.Sprintf("%s modified its argument: before %s, after %s", op.Name, before, after), map[string]any{"op": op.Name, "before": before, "after": after}, caseNo)
 			}
